@@ -69,6 +69,37 @@ theorem tie_newOptionsShape : newOptionsShape = [
   "}",
   "return"] := by rfl
 
+/-! ### round 3: `newOptions` (the Options → (expiry, notFoundExpiry) function of the model) -/
+
+/-- the state `newOptions` starts from is the zero `Options` (so an option that is not given equals 0:
+`Model.newOptions` uses `getD 0`), and every given option is applied to it. -/
+theorem tie_newOptionsHead : newOptionsHead = [
+  "var o Options",
+  "for _, opt := range opts { opt(&o) }"] := by rfl
+
+/-- which field an option assigns. -/
+theorem tie_withOptionAssigns : withExpiryAssigns = ["o.Expiry = expiry"]
+    ∧ withNotFoundExpiryAssigns = ["o.NotFoundExpiry = expiry"] := by decide
+
+/-- the field updates a translated effect list performs on (Expiry, NotFoundExpiry). -/
+def applyOpt (st : Int × Int) : List (String × Int) → Int × Int
+  | [] => st
+  | fv :: r => applyOpt (if fv.1 = "o.Expiry" then (fv.2, st.2)
+                         else if fv.1 = "o.NotFoundExpiry" then (st.1, fv.2) else (-1, -1)) r
+
+/-- **the sanity checks of `newOptions`, translated from the source, are the model's `newOptionsMs`** for every
+pair of field values (whole milliseconds; the Go values are nanoseconds): comparison operators (`<= 0`),
+the constants, and which field gets which default. -/
+theorem tie_newOptionsTail (e n : Int) :
+    applyOpt (e * 1000000, n * 1000000)
+        (newOptionsTail (e * 1000000) defaultExpiry (n * 1000000) defaultNotFoundExpiry)
+      = (((newOptionsMs e n).1 : Int) * 1000000, ((newOptionsMs e n).2 : Int) * 1000000) := by
+  have he : (e * 1000000 ≤ 0) ↔ e ≤ 0 := by omega
+  have hn : (n * 1000000 ≤ 0) ↔ n ≤ 0 := by omega
+  unfold newOptionsTail newOptionsMs
+  by_cases h1 : e ≤ 0 <;> by_cases h2 : n ≤ 0 <;>
+    simp [he, hn, h1, h2, applyOpt, defaultExpiry, defaultNotFoundExpiry, defaultExpiryMs, defaultNotFoundExpiryMs] <;> omega
+
 theorem tie_doGetCacheShape : doGetCacheShape = [
   "call c.stat.IncrementTotal",
   "call c.rds.GetCtx",
@@ -260,18 +291,49 @@ theorem tie_processCacheFacts : processCacheFacts = [
   "call c.rds.DelCtx(ctx, key)",
   "return c.errNotFound"] := by rfl
 
-theorem tie_setCacheWithNotFoundFacts : setCacheWithNotFoundFacts = [
-  "call math.Ceil(c.aroundDuration(c.notFoundExpiry).Seconds())",
-  "call c.aroundDuration(c.notFoundExpiry)",
-  "call c.rds.SetnxExCtx(ctx, key, notFoundPlaceholder, seconds)",
-  "return err"] := by rfl
-
-theorem tie_setWithExpireFacts : setWithExpireFacts = [
-  "return err",
-  "call c.aroundDuration(c.expiry)",
-  "return c.rds.SetexCtx(ctx, key, string(data), int(math.Ceil(expire.Seconds())))",
-  "call c.rds.SetexCtx(ctx, key, string(data), int(math.Ceil(expire.Seconds())))",
-  "call math.Ceil(expire.Seconds())"] := by rfl
+/-- how the seconds handed to Redis are computed — EITHER form is accepted until fix
+`fixes/C06-ttl-at-least-one-second.patch` is applied:
+  * pinned code: `int(math.Ceil(d.Seconds()))` inline in `SetWithExpireCtx` and `setCacheWithNotFound` (0 seconds
+    for a jittered duration below 1 ns: witness `Props.one_nanosecond_expiry_writes_a_persistent_key`);
+  * fixed code: the same rounding inside the helper `ttlSeconds`, which never returns less than 1
+    (`Model.ttlSecondsFixed`; identical to the pinned rounding for every expiry ≥ 2 ns: `Props.ttl_fix_changes_nothing_above_1ns`).
+In both forms: the not-found marker uses `aroundDuration(c.notFoundExpiry)` and `SetnxExCtx` (SET NX EX), a row
+uses `expire` (re-drawn from `c.expiry` when non-positive) and `SetexCtx`. -/
+theorem tie_ttlSecondsForms :
+    (setCacheWithNotFoundFacts = [
+        "call math.Ceil(c.aroundDuration(c.notFoundExpiry).Seconds())",
+        "call c.aroundDuration(c.notFoundExpiry)",
+        "call c.rds.SetnxExCtx(ctx, key, notFoundPlaceholder, seconds)",
+        "return err"]
+      ∧ setWithExpireFacts = [
+        "return err",
+        "call c.aroundDuration(c.expiry)",
+        "return c.rds.SetexCtx(ctx, key, string(data), int(math.Ceil(expire.Seconds())))",
+        "call c.rds.SetexCtx(ctx, key, string(data), int(math.Ceil(expire.Seconds())))",
+        "call math.Ceil(expire.Seconds())"]
+      ∧ ttlSecondsFacts = [] ∧ ttlSecondsShape = [])
+    ∨ (setCacheWithNotFoundFacts = [
+        "call ttlSeconds(c.aroundDuration(c.notFoundExpiry))",
+        "call c.aroundDuration(c.notFoundExpiry)",
+        "call c.rds.SetnxExCtx(ctx, key, notFoundPlaceholder, seconds)",
+        "return err"]
+      ∧ setWithExpireFacts = [
+        "return err",
+        "call c.aroundDuration(c.expiry)",
+        "return c.rds.SetexCtx(ctx, key, string(data), ttlSeconds(expire))",
+        "call c.rds.SetexCtx(ctx, key, string(data), ttlSeconds(expire))",
+        "call ttlSeconds(expire)"]
+      ∧ ttlSecondsFacts = [
+        "call math.Ceil(d.Seconds())",
+        "return seconds",
+        "return 1"]
+      ∧ ttlSecondsShape = [
+        "call d.Seconds",
+        "call math.Ceil",
+        "if seconds > 1 {",
+        "return",
+        "}",
+        "return"]) := by decide
 
 theorem tie_setFacts : setFacts = [
   "return c.SetWithExpireCtx(ctx, key, val, c.aroundDuration(c.expiry))",
@@ -630,5 +692,95 @@ theorem tie_moncUpdateOneFacts : moncUpdateOneFacts = [
   "call mm.DelCache(ctx, key)",
   "return nil, err",
   "return res, nil"] := by rfl
+
+/-! ### round 3: IsNotFound and the context-free wrappers -/
+
+theorem tie_isNotFoundFacts : isNotFoundFacts = [
+  "return errors.Is(err, c.errNotFound)",
+  "call errors.Is(err, c.errNotFound)"] := by rfl
+
+theorem tie_clusterIsNotFoundFacts : clusterIsNotFoundFacts = [
+  "return errors.Is(err, cc.errNotFound)",
+  "call errors.Is(err, cc.errNotFound)"] := by rfl
+
+theorem tie_nodeWDelFacts : nodeWDelFacts = [
+  "return c.DelCtx(context.Background(), keys...)",
+  "call c.DelCtx(context.Background(), keys)"] := by rfl
+
+theorem tie_clusterWDelFacts : clusterWDelFacts = [
+  "return cc.DelCtx(context.Background(), keys...)",
+  "call cc.DelCtx(context.Background(), keys)"] := by rfl
+
+theorem tie_nodeWGetFacts : nodeWGetFacts = [
+  "return c.GetCtx(context.Background(), key, val)",
+  "call c.GetCtx(context.Background(), key, val)"] := by rfl
+
+theorem tie_clusterWGetFacts : clusterWGetFacts = [
+  "return cc.GetCtx(context.Background(), key, val)",
+  "call cc.GetCtx(context.Background(), key, val)"] := by rfl
+
+theorem tie_nodeWSetFacts : nodeWSetFacts = [
+  "return c.SetCtx(context.Background(), key, val)",
+  "call c.SetCtx(context.Background(), key, val)"] := by rfl
+
+theorem tie_clusterWSetFacts : clusterWSetFacts = [
+  "return cc.SetCtx(context.Background(), key, val)",
+  "call cc.SetCtx(context.Background(), key, val)"] := by rfl
+
+theorem tie_nodeWSetWithExpireFacts : nodeWSetWithExpireFacts = [
+  "return c.SetWithExpireCtx(context.Background(), key, val, expire)",
+  "call c.SetWithExpireCtx(context.Background(), key, val, expire)"] := by rfl
+
+theorem tie_clusterWSetWithExpireFacts : clusterWSetWithExpireFacts = [
+  "return cc.SetWithExpireCtx(context.Background(), key, val, expire)",
+  "call cc.SetWithExpireCtx(context.Background(), key, val, expire)"] := by rfl
+
+theorem tie_nodeWTakeFacts : nodeWTakeFacts = [
+  "return c.TakeCtx(context.Background(), val, key, query)",
+  "call c.TakeCtx(context.Background(), val, key, query)"] := by rfl
+
+theorem tie_clusterWTakeFacts : clusterWTakeFacts = [
+  "return cc.TakeCtx(context.Background(), val, key, query)",
+  "call cc.TakeCtx(context.Background(), val, key, query)"] := by rfl
+
+theorem tie_nodeWTakeWithExpireFacts : nodeWTakeWithExpireFacts = [
+  "return c.TakeWithExpireCtx(context.Background(), val, key, query)",
+  "call c.TakeWithExpireCtx(context.Background(), val, key, query)"] := by rfl
+
+theorem tie_clusterWTakeWithExpireFacts : clusterWTakeWithExpireFacts = [
+  "return cc.TakeWithExpireCtx(context.Background(), val, key, query)",
+  "call cc.TakeWithExpireCtx(context.Background(), val, key, query)"] := by rfl
+
+theorem tie_sqlcWDelCacheFacts : sqlcWDelCacheFacts = [
+  "return cc.DelCacheCtx(context.Background(), keys...)",
+  "call cc.DelCacheCtx(context.Background(), keys)"] := by rfl
+
+theorem tie_sqlcWGetCacheFacts : sqlcWGetCacheFacts = [
+  "return cc.GetCacheCtx(context.Background(), key, v)",
+  "call cc.GetCacheCtx(context.Background(), key, v)"] := by rfl
+
+theorem tie_sqlcWExecFacts : sqlcWExecFacts = [
+  "return exec(conn)",
+  "return cc.ExecCtx(context.Background(), execCtx, keys...)",
+  "call cc.ExecCtx(context.Background(), execCtx, keys)"] := by rfl
+
+theorem tie_sqlcWQueryRowFacts : sqlcWQueryRowFacts = [
+  "return query(conn, v)",
+  "return cc.QueryRowCtx(context.Background(), v, key, queryCtx)",
+  "call cc.QueryRowCtx(context.Background(), v, key, queryCtx)"] := by rfl
+
+theorem tie_sqlcWQueryRowIndexFacts : sqlcWQueryRowIndexFacts = [
+  "return indexQuery(conn, v)",
+  "return primaryQuery(conn, v, primary)",
+  "return cc.QueryRowIndexCtx(context.Background(), v, key, keyer, indexQueryCtx, primaryQueryCtx)",
+  "call cc.QueryRowIndexCtx(context.Background(), v, key, keyer, indexQueryCtx, primaryQueryCtx)"] := by rfl
+
+theorem tie_sqlcWSetCacheFacts : sqlcWSetCacheFacts = [
+  "return cc.SetCacheCtx(context.Background(), key, val)",
+  "call cc.SetCacheCtx(context.Background(), key, val)"] := by rfl
+
+theorem tie_sqlcWSetCacheWithExpireFacts : sqlcWSetCacheWithExpireFacts = [
+  "return cc.SetCacheWithExpireCtx(context.Background(), key, val, expire)",
+  "call cc.SetCacheWithExpireCtx(context.Background(), key, val, expire)"] := by rfl
 
 end GoZero.C06.Tie
